@@ -7,6 +7,7 @@ import (
 	"time"
 
 	"github.com/beevik/etree"
+	saml2 "github.com/russellhaering/gosaml2"
 
 	"verifharness/idp"
 	"verifharness/orch"
@@ -143,10 +144,13 @@ func (Cond) Run(c *orch.Case) *orch.Outcome {
 	}
 	doc := idp.Serialize(root, lay, rng)
 	enc := idp.Encode(doc, c.Seed%3 == 0)
-	sp := w.NewSP()
-	if cfg.Aud == "empty" {
-		sp.AudienceURI = ""
-	}
+	sp := spFor(c.Seed/4, "cond"+cfg.Aud, func() *saml2.SAMLServiceProvider {
+		sp := w.NewSP()
+		if cfg.Aud == "empty" {
+			sp.AudienceURI = ""
+		}
+		return sp
+	})
 	o := &cObs{Proxy: cProxyObs{Aud: []string{}}}
 	func() {
 		defer func() {
